@@ -17,7 +17,37 @@ def routed(obj, what, every=5, shallow=False):
     n = _N[0]
     if n % every:
         return obj
-    route = (n // every) % (3 if shallow else 2)
+    treelike = hasattr(obj, "left") and hasattr(obj, "right") and hasattr(obj, "parent")
+    route = (n // every) % (3 if (shallow or treelike) else 2)
+    before = None
+    if treelike:
+        import random as _random
+        from ..oracles import shadow as S
+
+        try:
+            before = S.idshadow(obj)
+            inner = [x for x in S.nodes_preorder(obj) if x.parent is not None]
+            if inner:
+                # copies of PARTS of the tree are made and dropped (one node restyled for display, a sub-expression
+                # sent elsewhere): the tree itself is not involved
+                x = _random.Random(n).choice(inner)
+                for how in (copy.copy, copy.deepcopy, pickle.dumps):
+                    try:
+                        how(x)
+                    except Exception:       # (classes defined inside a function cannot be pickled: not a finding)
+                        pass
+                core.REC.arm("copies:parts-copied-and-dropped")
+                if S.idshadow(obj) != before:
+                    core.REC.ev()
+                    core.REC.violation(core.REC.prop, "copy-route/side-effect", "copying a part of a tree modified the tree",
+                                       {"route": "copy-of-a-part", "tree": S.to_json(S.shadow(obj)),
+                                        "summary": f"copy.copy / copy.deepcopy / pickle.dumps of the inner node '{S.text_of(x)[:60]}' of '{S.text_of(obj)[:100]}' changed the links of the tree itself"})
+        except RecursionError:
+            treelike = False
+        except Exception:
+            pass
+        if treelike and route == 2:
+            return routed_pair(obj, _random.Random(n + 1))
     try:
         if route == 0:
             out = copy.deepcopy(obj)
@@ -28,7 +58,91 @@ def routed(obj, what, every=5, shallow=False):
         else:
             out = copy.copy(obj)
             core.REC.arm(f"copies:{what}:copy")
-        return out
     except Exception:
         core.REC.arm(f"copies:{what}:not-copyable")
         return obj
+    _same_tree(obj, out, what, ("deepcopy", "pickle", "copy")[route])
+    return out
+
+
+def _same_tree(obj, out, what, route):
+    """a copy of a tree made by the runtime IS that tree: same classes, same payloads (value and numeric type,
+    names, operand sides), links consistent.  Whatever property the check is about, it is about this tree too --
+    a copy that silently differs (a constant that lost its value, a child whose parent link was not restored)
+    would make every later observation on it one about another expression."""
+    from ..oracles import shadow as S
+
+    if not (hasattr(obj, "left") and hasattr(obj, "right") and hasattr(obj, "parent")):
+        return
+    rec = core.REC
+    try:
+        a, b = S.shadow(obj), S.shadow(out)
+        problems = [] if a == b else ["the copy is a different tree"]
+        problems += [str(q) for q in S.audit(out, expr=False)][:2]
+    except RecursionError:
+        return
+    except Exception as e:
+        problems = [f"the copy cannot be read: {type(e).__name__}"]
+    rec.ev()
+    if problems:
+        try:
+            text = S.text_of(obj)
+        except Exception:
+            text = "<tree>"
+        rec.violation(rec.prop, f"copy-route/{route}", "a tree that went through the runtime's copy protocols is no longer the same tree",
+                      {"route": route, "tree": S.to_json(S.shadow(obj)) if "a" in dir() else None,
+                       "summary": f"{route} of '{text[:120]}': " + "; ".join(problems)})
+
+
+def replay(w):
+    """a copy-route witness: the tree is rebuilt from its shadow and sent through the same route again (for pairs,
+    see routed_pair)"""
+    from ..oracles import shadow as S
+
+    obj = S.build(S.from_json(w["tree"]))
+    route = w["route"]
+    try:
+        if route.startswith("pair"):
+            inner = [n for n in S.nodes_preorder(obj) if n.parent is not None]
+            for focus in inner:
+                out = _pair_copy(focus, obj, route)
+                if out is not None:
+                    _same_tree(obj, out, "tree", route)
+            return
+        out = copy.deepcopy(obj) if route == "deepcopy" else pickle.loads(pickle.dumps(obj)) if route == "pickle" else copy.copy(obj)
+    except Exception:
+        return
+    _same_tree(obj, out, "tree", route)
+
+
+def _pair_copy(focus, tree, route):
+    """one copy call over a record that holds an inner node BEFORE the tree it belongs to (a search state
+    {'focus': node, 'expression': tree}, a tuple (change.result, root)): returns the copied tree"""
+    try:
+        if route == "pair-deepcopy-tuple":
+            return copy.deepcopy((focus, tree))[1]
+        if route == "pair-deepcopy-dict":
+            return copy.deepcopy({"focus": focus, "expression": tree})["expression"]
+        if route == "pair-pickle":
+            return pickle.loads(pickle.dumps([focus, tree]))[1]
+    except Exception:
+        return None
+    return None
+
+
+def routed_pair(tree, rng):
+    """the tree as it comes out of one copy call over a record that names one of its inner nodes first; the
+    original when the runtime cannot copy it"""
+    from ..oracles import shadow as S
+
+    inner = [n for n in S.nodes_preorder(tree) if n.parent is not None]
+    if not inner:
+        return tree
+    route = rng.choice(["pair-deepcopy-tuple", "pair-deepcopy-dict", "pair-pickle"])
+    out = _pair_copy(rng.choice(inner), tree, route)
+    if out is None:
+        core.REC.arm("copies:pair:not-copyable")
+        return tree
+    core.REC.arm("copies:" + route)
+    _same_tree(tree, out, "tree", route)
+    return out
